@@ -86,13 +86,13 @@ var entries = []string{"send-w", "send-now", "async", "secs2", "reply", "forward
 func sitsFor(active bool) []string {
 	if active {
 		return []string{"never", "connecting", "refused", "not-selected", "deselected", "select-rejected",
-			"backoff", "separated", "t6-expired", "regen", "closed", "reopened", "reopened-connecting"}
+			"backoff", "separated", "t6-expired", "regen", "regen-separated", "closed", "reopened", "reopened-connecting"}
 	}
 	return []string{"never", "listening", "not-selected", "deselected", "backoff", "separated", "t7-expired",
-		"regen", "closed", "reopened-listening", "reopened"}
+		"regen", "regen-separated", "closed", "reopened-listening", "reopened"}
 }
 
-var linkedSits = []string{"not-selected", "deselected", "regen", "reopened"}
+var linkedSits = []string{"not-selected", "deselected", "regen", "regen-separated", "reopened"}
 
 // ---- harness around one World ----
 
@@ -349,8 +349,11 @@ func (h *hx) reach(sit string) (s situation, ok bool) {
 			return s, h.harness("%s did not drop the link (State()=%v): the recipe assumes it does", sit, w.C.State())
 		}
 		s.recover = redial
-	case "regen":
-		if !(h.establish() && h.dropLink("backoff") && h.attachSoon(sit) && (!h.sp.Active || h.expectSelectReq())) {
+	case "regen", "regen-separated":
+		// the next generation after the previous session was ended by the peer's close, or by its
+		// Separate.req while Selected (per-transport state must not survive the generation)
+		how := map[string]string{"regen": "backoff", "regen-separated": "separated"}[sit]
+		if !(h.establish() && h.dropLink(how) && h.attachSoon(sit) && (!h.sp.Active || h.expectSelectReq())) {
 			return s, false
 		}
 		s.linked, s.state, s.recover = true, hsms.NotSelectedState, reselect
